@@ -284,8 +284,16 @@ func (eval Evaluator) evaluateInPlace(level int, el0 *rlwe.Ciphertext, el1 *rlwe
 
 	elOut.Scale = el0.Scale.Max(el1.Scale)
 
-	// If the inputs degrees differ, it copies the remaining degree on the receiver.
-	if largest != nil && largest != elOut.El() { // checks to avoid unnecessary work.
+	// If the inputs degrees differ, the remaining components of the largest operand are
+	// evaluated against zero: copied if it is the first operand, but passed through the
+	// operation if it is the second one (a subtraction negates them).
+	if largest == el1 && el1.Degree() > el0.Degree() {
+		for i := smallest.Degree() + 1; i < largest.Degree()+1; i++ {
+			eval.buffQ[0].CopyLvl(level, largest.Value[i])
+			elOut.Value[i].Zero()
+			evaluate(elOut.Value[i], eval.buffQ[0], elOut.Value[i])
+		}
+	} else if largest != nil && largest != elOut.El() { // checks to avoid unnecessary work.
 		for i := smallest.Degree() + 1; i < largest.Degree()+1; i++ {
 			elOut.Value[i].CopyLvl(level, largest.Value[i])
 		}
